@@ -125,7 +125,7 @@ def handle (case obs : List String) : String × String :=
           let st := firstStatus obs
           let expCode : Option Nat := match e with | some k => some k | none => if c.cfg.server then some 0 else none
           (encColumn c obs,
-           verdict [("no-panic", !obs.any isBad),
+           verdict [("no-panic", !obs.any isBad), ("no-lost-wakeup", noLostWakeup obs),
                    ("earlier-messages-delivered-before-status", delivered == expected),
                    ("status-code", (st.bind codeOfTok) == expCode),
                    ("nothing-sent-after-status", e.isNone || c.cfg.server == false ||
@@ -141,8 +141,8 @@ def handle (case obs : List String) : String × String :=
               && frs.all (fun fp => fp.1 == 0 || c.cfg.enc.isSome)
               && within.all (fun m => m.head? != some 255)
           let st := firstStatus obs
-          if !allValid then (m, verdict [("no-panic", !obs.any isBad), ("no-oversize-reservation", !obs.contains "a1")])
-          else (m, verdict [("no-panic", !obs.any isBad),
+          if !allValid then (m, verdict [("no-panic", !obs.any isBad), ("no-lost-wakeup", noLostWakeup obs), ("no-oversize-reservation", !obs.contains "a1")])
+          else (m, verdict [("no-panic", !obs.any isBad), ("no-lost-wakeup", noLostWakeup obs),
                    ("no-oversize-reservation", !obs.contains "a1"),
                    ("accepted-iff-within-limit", obsMsgs (beforeStatus obs) == within),
                    ("oversized-refused-with-out-of-range", !over || st == some "e11:t")])
